@@ -1,11 +1,140 @@
 /-
-C16 model: sub-domain extraction (filled in with the C16 work).
+C16 model: `osyris.spatial.extract_sphere / extract_box` (as repaired: position looked up in
+the group itself, else in the dataset's "mesh" group; box over the components that exist).
+Value level: a dataset is an ordered list of named groups plus metadata.
 -/
 import OsyrisModel.Machine
 open Lean
 
-namespace Osyris.Subdomain
+namespace Osyris
 
-def step (_j : Json) : M Json := fail .badOp
+abbrev DsV := List (String × DgV)
 
-end Osyris.Subdomain
+namespace Subdomain
+
+/-- position used for a group: its own `position`, else the mesh group's -/
+def positionOf (ds : DsV) (g : DgV) : Option MemberV :=
+  match dictGet? g "position" with
+  | some p => some p
+  | none => (dictGet? ds "mesh").bind (dictGet? · "position")
+
+def allM {α : Type} (f : α → Res (List Bool)) : List α → Res (Option (List Bool))
+  | [] => .ok none
+  | a :: rest => do
+    let m ← f a
+    match ← allM f rest with
+    | none => pure (some m)
+    | some m' => pure (some (List.zipWith (· && ·) m m'))
+
+/-- `((pos - origin).norm < radius).values` for a 0-d radius.
+    For >= 2 components the Euclidean norm is compared through its square; a 1-component
+    Vector's `norm` is the component itself (as coded, see the C09 known finding). -/
+def sphereMask (T : Tables) (pos origin : VecV) (radius : ArrV) : Res (List Bool) := do
+  let d ← pos.binaryOp T .sub (.vec origin)
+  -- `r < radius`: radius converted to r's unit (strict)
+  let (rad, _) ← radius.to d.unit
+  let R := getR rad.data 0
+  match d.comps with
+  | [x] => pure (x.data.map fun t => decide (t < R))
+  | _ => pure (d.normSq.map fun q => decide (0 < R) && decide (q < R * R))
+
+/-- `(c <= size/2) & (c >= -size/2)` per existing component, combined with `&` -/
+def boxMask (T : Tables) (pos origin : VecV) (sizes : List ArrV) : Res (List Bool) := do
+  let d ← pos.binaryOp T .sub (.vec origin)
+  let per ← (List.zip d.comps sizes).mapM fun (p : ArrV × ArrV) => do
+    let (sz, _) ← p.2.to p.1.unit
+    let h := getR sz.data 0 / 2
+    pure (p.1.data.map fun t => decide (t ≤ h) && decide (-h ≤ t))
+  match per with
+  | [] => .error .typeErr
+  | m :: rest => pure (rest.foldl (fun acc m' => List.zipWith (· && ·) acc m') m)
+
+/-- the extraction loop: for every group whose rows have positions, keep the rows of the mask;
+    groups with no row inside are omitted; groups without usable positions are skipped -/
+def extract (ds : DsV) (maskOf : VecV → Res (List Bool)) : Res DsV :=
+  ds.foldlM (fun (acc : DsV) (e : String × DgV) => do
+    match positionOf ds e.2 with
+    | none => pure acc
+    | some (.arr _) => .error .typeErr       -- an Array position has no components to centre
+    | some (.vec pos) =>
+      if pos.shape != e.2.shape then pure acc
+      else do
+        let m ← maskOf pos
+        if m.any id then do
+          let g' ← e.2.getIndex (.mask m)
+          pure (dictSet acc e.1 g')
+        else pure acc) []
+
+end Subdomain
+
+/-! ### machine level: read a dataset out of the store, extract, allocate the result -/
+
+namespace Subdomain
+
+def readDs (did : Nat) : M DsV := do
+  let d ← getDsO did
+  d.groups.mapM fun (e : String × Nat) => do
+    let g ← getDgO e.2
+    let ms ← g.entries.mapM fun (m : String × Nat) => do
+      let v ← readMember m.2
+      pure (m.1, v)
+    pure (e.1, ms)
+
+def allocMember (m : MemberV) : M Nat :=
+  match m with
+  | .arr a => allocArr a
+  | .vec v => allocVec v
+
+def allocDs (ds : DsV) (metad : List (String × String)) : M Nat := do
+  let gs ← ds.mapM fun (e : String × DgV) => do
+    let ms ← e.2.mapM fun (m : String × MemberV) => do
+      let id ← allocMember m.2
+      pure (m.1, id)
+    let gid ← newObj (.dg { entries := ms, name := e.1 })
+    pure (e.1, gid)
+  newObj (.ds { groups := gs, metad := metad })
+
+def lookupVarJ (j : Json) (k : String) : M Nat := do
+  match getNat? j k with
+  | some v => lookupVar v
+  | none => fail .badOp
+
+def rhsVal (j : Json) (k : String) : M ArrV := do
+  match getField? j k with
+  | some r =>
+    match getStr? r "k" with
+    | some "val" => match (getField? r "v").bind ArrV.fromJson? with
+      | some a => pure a
+      | none => fail .badOp
+    | some "var" => do
+      match getNat? r "v" with
+      | some v => readArr (← lookupVar v)
+      | none => fail .badOp
+    | _ => fail .badOp
+  | none => fail .badOp
+
+def step (j : Json) : M Json := do
+  let T ← tables
+  let did ← lookupVarJ j "d"
+  let ds ← readDs did
+  let d ← getDsO did
+  let origin ← readVec (← lookupVarJ j "origin")
+  let res ← match getStr? j "op" with
+    | some "extract_sphere" => do
+      let radius ← rhsVal j "radius"
+      liftR (extract ds (fun pos => sphereMask T pos origin radius))
+    | some "extract_box" => do
+      let dx ← rhsVal j "dx"
+      let dy ← rhsVal j "dy"
+      let dz ← rhsVal j "dz"
+      liftR (extract ds (fun pos => boxMask T pos origin [dx, dy, dz]))
+    | _ => fail .badOp
+  let nid ← allocDs res d.metad
+  match getNat? j "dst" with
+  | some dst => bindVar dst nid
+  | none => fail .badOp
+  pure (Json.str "ok")
+
+end Subdomain
+
+end Osyris
